@@ -390,29 +390,26 @@ _PUTMODE = [False]
 
 
 def _hinted(r, v):
+    """r is compiled with variable v as its destination hint.  If the form that finally receives the hint
+    is an inlined operator that stores into the destination before it has read an operand held in v's own
+    slot, wrap that *whole form* as (id form): it is then compiled as a call argument, without the hint,
+    and nothing else about it changes (in particular its operands are still read as before, so this
+    rewrite does not also neutralise `operand-read-late`)."""
     if type(r) is not Tup or r.b or not r.v or type(r.v[0]) is not Sym:
         return r
     h = r.v[0]
-    if _PUTMODE[0]:
+    if h is Sym("put"):
         # (set v (put ds k val)): the table is copied into v before k and val are read
-        if h is Sym("put") and len(r.v) == 4:
-            items = list(r.v)
-            for i in (2, 3):
-                if _alias_of(items[i], v):
-                    items[i] = Tup((_ID, items[i]), False)
-            return Tup(items, False)
-    if h in _INLINE_OPS and _PUTMODE[0]:
+        if _PUTMODE[0] and len(r.v) == 4 and (_alias_of(r.v[2], v) or _alias_of(r.v[3], v)):
+            return Tup((_ID, r), False)
         return r
     if h in _INLINE_OPS:
-        if len(r.v) >= 4:
-            items = list(r.v)
+        if not _PUTMODE[0] and len(r.v) >= 4:
             # arithmetic: dest := a0 op a1, then dest := dest op a_i (i >= 2)
             # comparison: dest := a0 cmp a1, then dest := a1 cmp a2 ... (a_i re-read for i >= 1)
             first = 2 if h in _CMP_OPS else 3
-            for i in range(first, len(items)):
-                if _alias_of(items[i], v):
-                    items[i] = Tup((_ID, items[i]), False)
-            return Tup(items, False)
+            if any(_alias_of(o, v) for o in r.v[first:]):
+                return Tup((_ID, r), False)
         return r
     if h in _TAIL_LAST and len(r.v) > 1:
         return Tup(r.v[:-1] + (_hinted(r.v[-1], v),), False)
